@@ -158,13 +158,12 @@ Proof.
   destruct p as [ma mi pa pr bl]. unfold partial_ok, caret_tbl; cbn [p_major p_minor p_patch p_pre p_build].
   intros (H1 & H2 & H3). destruct ma as [[|ma]|], mi as [mi|], pa as [pa|]; le_crush; try exact I.
 Qed.
-Lemma hyphen_tbl_le lo up : match lo with Some l => partial_ok l | None => True end -> partial_ok up -> opt_le K1 (hyphen_tbl lo up).
+Lemma hyphen_tbl_le lo up : partial_ok lo -> partial_ok up -> opt_le K1 (hyphen_tbl lo up).
 Proof.
-  destruct up as [ma mi pa pr bl]. unfold partial_ok, hyphen_tbl, hyphen_upper, pred_is_unbounded; cbn [p_major p_minor p_patch p_pre p_build].
-  intros Hl (H1 & H2 & H3).
-  destruct lo as [[lma lmi lpa lpr lbl]|]; cbn [p_major p_minor p_patch p_pre p_build] in *;
-  [destruct Hl as (L1 & L2 & L3); destruct lma, lmi, lpa|];
-  destruct ma as [ma|], mi as [mi|], pa as [pa|]; le_crush.
+  destruct up as [ma mi pa pr bl]. destruct lo as [lma lmi lpa lpr lbl].
+  unfold partial_ok, hyphen_tbl, hyphen_upper; cbn [p_major p_minor p_patch p_pre p_build].
+  intros (L1 & L2 & L3) (H1 & H2 & H3).
+  destruct lma, lmi, lpa; destruct ma as [ma|], mi as [mi|], pa as [pa|]; le_crush.
 Qed.
 
 (** ** ... through the grammar *)
@@ -191,13 +190,10 @@ Qed.
 Lemma hyphen_p_le s : le_res (hyphen_p s).
 Proof.
   unfold hyphen_p, le_res.
-  assert (Hlo : match (fst (match partial_version s with Some (p, r) => (Some p, r) | None => (None, s) end)) with
-                | Some l => partial_ok l | None => True end).
-  { destruct (partial_version s) as [[p r]|] eqn:E; cbn; auto. eapply partial_version_ok; eauto. }
-  destruct (match partial_version s with Some (p, r) => (Some p, r) | None => (None, s) end) as [lower s1]. cbn in Hlo.
+  destruct (partial_version s) as [[lower s1]|] eqn:E0; auto.
   destruct (space1 s1) as [s2|]; auto. destruct (lit1 45 s2) as [s3|]; auto.
   destruct (space1 s3) as [s4|]; auto. destruct (partial_version s4) as [[up r]|] eqn:E; auto.
-  apply hyphen_tbl_le; auto. eapply partial_version_ok; eauto.
+  apply hyphen_tbl_le; eapply partial_version_ok; eauto.
 Qed.
 Lemma terminated_p_le p s : (forall s, le_res (p s)) -> le_res (terminated_p p s).
 Proof.
@@ -206,7 +202,6 @@ Qed.
 Lemma simple_le s : opt_le K1 (fst (simple s)).
 Proof.
   unfold simple.
-  pose proof (terminated_p_le hyphen_p s hyphen_p_le) as H1. destruct (terminated_p hyphen_p s) as [[b r]|]; [exact H1|].
   pose proof (terminated_p_le primitive_p s primitive_p_le) as H2. destruct (terminated_p primitive_p s) as [[b r]|]; [exact H2|].
   pose proof (terminated_p_le partial_p s partial_p_le) as H3. destruct (terminated_p partial_p s) as [[b r]|]; [exact H3|].
   pose proof (terminated_p_le tilde_p s tilde_p_le) as H4. destruct (terminated_p tilde_p s) as [[b r]|]; [exact H4|].
@@ -233,11 +228,16 @@ Proof.
     destruct acc as [a|]; cbn; auto. apply (bs_intersect_le K1 a b); auto. }
   specialize (H (Some first) Wf). now apply opt_list_le.
 Qed.
-Lemma range_p_le s bs r : range_p s = Some (bs, r) -> range_le K1 bs.
+Lemma simples_p_le s bs r : simples_p s = Some (bs, r) -> range_le K1 bs.
 Proof.
-  unfold range_p. pose proof (simple_le s) as W. destruct (simple s) as [b s1]. cbn in W.
+  unfold simples_p. pose proof (simple_le s) as W. destruct (simple s) as [b s1]. cbn in W.
   destruct (simples_tail (length s1) s1) as [[l r']|] eqn:E; [|discriminate]. intros [= <- _].
   apply and_fold_le. apply (flatten_opts_le (b :: l)). constructor; auto. eapply simples_tail_le; eauto.
+Qed.
+Lemma range_p_le s bs r : range_p s = Some (bs, r) -> range_le K1 bs.
+Proof.
+  unfold range_p. pose proof (hyphen_p_le s) as W. destruct (hyphen_p s) as [[b r0]|]; [|apply simples_p_le].
+  destruct (at_alt_end r0); [|apply simples_p_le]. intros [= <- _]. cbn in W. now apply opt_list_le.
 Qed.
 Lemma ranges_tail_le f : forall s l r, ranges_tail f s = Some (l, r) -> range_le K1 l.
 Proof.
